@@ -356,7 +356,9 @@ class Run(RunBase):
               "light": self.net.remove_traffic_light, "intersection": self.net.remove_intersection}[kind]
         try:
             xa = np.int64(x) if op.get("np_id") else x  # ids often come out of numpy arrays
-            if kind == "lanelet" and op.get("rtree") is False:
+            if kind == "lanelet" and op.get("rtree") is False and op.get("positional"):
+                fn(xa, False)  # the documented second positional parameter
+            elif kind == "lanelet" and op.get("rtree") is False:
                 fn(xa, rtree=False)  # the spatial index is not C10's business; references must be cleaned all the same
             else:
                 fn(xa)
@@ -591,7 +593,7 @@ def _remover(rng, run, cfg):
             yield {"op": "net_remove_absent", "kind": kind, "id": gone}
         elif rng.chance(cfg["p_net_level"]):
             yield {"op": "net_remove", "kind": kind, "ids": [rng.pick(ids)], "rtree": rng.chance(0.8),
-                   "np_id": rng.chance(0.3)}
+                   "np_id": rng.chance(0.3), "positional": rng.chance(0.5)}
         else:
             form = rng.choice(["single", "list"])
             n = 1 if form == "single" else rng.randint(1, min(3, len(ids)))
